@@ -72,6 +72,7 @@ class Facts:
 
     def named_len(self, name):
         """value of an array-length constant printed by name (`[u8; SECRET_KEY_LENGTH]`)"""
+        name = name.lstrip("#")
         if name.isdigit():
             return int(name)
         vals = {c[0].get("value") for p, c in self.const_by_path.items() if p.endswith("::" + name.split("::")[-1]) and isinstance(c[0].get("value"), int)}
